@@ -73,6 +73,15 @@ def make(tab, header=None):
 
     header = list(header or tab["header"])
     data = [[pyval(c) for c in r] for r in tab["rows"]]
+    ints = tab.get("ints", "python")
+    if ints != "python" and data:
+        # representation dimension: columns of whole numbers handed over as numpy arrays of that integer type
+        cols = {}
+        for j, c in enumerate(header):
+            vals = [r[j] for r in data]
+            whole = all(cell[j][0] == "i" for cell in tab["rows"])
+            cols[c] = numpy.array(vals, dtype=getattr(numpy, ints)) if whole else vals
+        return make_table(header=header, data=cols, title=text(tab.get("title", [])), index_name=tab.get("index") or None)
     return make_table(header=header, data=data, title=text(tab.get("title", [])), index_name=tab.get("index") or None)
 
 
